@@ -21,6 +21,9 @@ SHARDS = {'quick': 4, 'thorough': 16}
 PROFILE = 'full'
 
 
+ENUM_DEPTH = {'quick': 2, 'thorough': 3}
+
+
 def plan(tier):
     return {'shards': SHARDS[tier]}
 
@@ -74,4 +77,6 @@ def run_shard(tier, idx, nshards, rec, known):
     if out.violation:
         case, sig, detail = out.violation
         out.violation = ({'ast': case, 'program': progs.show(case)}, sig, detail)
-    return [out]
+        return [out]
+    # bounded-exhaustive part: every chain of <= ENUM_DEPTH[tier] stage templates over every small source
+    return [out, progcheck.run_enum(lambda node: check_program(node, rec), rec, known, ENUM_DEPTH[tier], idx, nshards)]
